@@ -48,7 +48,11 @@ type srcTrack struct {
 func (t *srcTrack) trackID() uint32 { return t.init.Moov.Trak.Tkhd.TrackID }
 
 func readTrack(dir string, n int) (*srcTrack, error) {
-	raw, err := os.ReadFile(filepath.Join(dir, "init.mp4"))
+	return readTrackNamed(dir, "init.mp4", "%d.m4s", n)
+}
+
+func readTrackNamed(dir, initName, segPattern string, n int) (*srcTrack, error) {
+	raw, err := os.ReadFile(filepath.Join(dir, initName))
 	if err != nil {
 		return nil, err
 	}
@@ -58,7 +62,7 @@ func readTrack(dir string, n int) (*srcTrack, error) {
 	}
 	t := &srcTrack{init: f.Init}
 	for i := 1; i <= n; i++ {
-		raw, err := os.ReadFile(filepath.Join(dir, fmt.Sprintf("%d.m4s", i)))
+		raw, err := os.ReadFile(filepath.Join(dir, fmt.Sprintf(segPattern, i)))
 		if err != nil {
 			return nil, err
 		}
@@ -233,6 +237,49 @@ func Generate(root, src string, l Layout) error {
 			asegs = append(asegs, segT{start, t - start})
 		}
 	}
+	var a2segs []segT
+	if l.Audio2AC3 {
+		ac3, err := readTrackNamed(filepath.Join(filepath.Dir(src), "bbb_hevc_ac3_8s"), "audio_init.mp4", "audio_%d.m4s", 4)
+		if err != nil {
+			return fmt.Errorf("AC-3 source: %w", err)
+		}
+		if err := os.MkdirAll(filepath.Join(dir, "AC3"), 0o755); err != nil {
+			return err
+		}
+		if err := writeInit(filepath.Join(dir, "AC3", "init.mp4"), ac3.init, 48000); err != nil {
+			return err
+		}
+		// frames of 1536 ticks: as many per segment as start before the end of the video segment (ceil grid)
+		var vend, total uint64
+		t, k := uint64(0), 0
+		for _, vs := range vsegs {
+			total += vs.d
+		}
+		for si, vs := range vsegs {
+			vend += vs.d
+			var ss []mp4.FullSample
+			start := t
+			lim := vend * 48000 / uint64(l.VideoTS)
+			if si == len(vsegs)-1 {
+				lim = total * 48000 / uint64(l.VideoTS)
+			}
+			for t < lim {
+				s := ac3.samples[k%len(ac3.samples)]
+				k++
+				s.DecodeTime = t
+				t += uint64(s.Dur)
+				ss = append(ss, s)
+			}
+			name := fmt.Sprintf("%d.m4s", l.StartNr+si)
+			if l.UseTime {
+				name = fmt.Sprintf("%d.m4s", start)
+			}
+			if err := writeSeg(filepath.Join(dir, "AC3", name), uint32(l.StartNr+si), ac3.trackID(), ss); err != nil {
+				return err
+			}
+			a2segs = append(a2segs, segT{start, t - start})
+		}
+	}
 	var tsegs []segT
 	if l.Text {
 		text, err := readTrack(filepath.Join(src, "imsc1_txt_sv"), 4)
@@ -332,6 +379,10 @@ func Generate(root, src string, l Layout) error {
 		audioAS = fmt.Sprintf(`  <AdaptationSet contentType="audio" id="2" mimeType="audio/mp4" lang="en" segmentAlignment="true" startWithSAP="1">%s<Representation id="A48" codecs="mp4a.40.2" bandwidth="48000" audioSamplingRate="48000"/></AdaptationSet>
 `, tmpl(48000, asegs))
 	}
+	if a2segs != nil {
+		audioAS += fmt.Sprintf(`  <AdaptationSet contentType="audio" id="5" mimeType="audio/mp4" lang="en" segmentAlignment="true" startWithSAP="1">%s<Representation id="AC3" codecs="ac-3" bandwidth="96000" audioSamplingRate="48000"/></AdaptationSet>
+`, tmpl(48000, a2segs))
+	}
 	if tsegs != nil {
 		textAS = fmt.Sprintf(`  <AdaptationSet contentType="text" id="3" mimeType="application/mp4" lang="sv" segmentAlignment="true" startWithSAP="1" codecs="stpp">%s<Representation id="T1" bandwidth="8000"/></AdaptationSet>
 `, tmpl(1000, tsegs))
@@ -411,6 +462,8 @@ func ExtraLayouts() []Layout {
 		// representation ids with characters that are unusual in file names, and that differ in such a character only
 		// no video: the audio track is the reference track (375 AAC frames = 8 s exactly)
 		{Name: "x_audio_only", VideoTS: 90000, FrameDur: 3000, SegFrames: []int{60, 60, 60, 60}, AudioSegs: []int{94, 94, 94, 93}, AudioOnly: true},
+		// two audio AdaptationSets with one timescale and different frame durations (AAC 1024, AC-3 1536)
+		{Name: "x_two_audio", VideoTS: 90000, FrameDur: 3000, SegFrames: []int{60, 60, 60, 60}, AudioSegs: []int{94, 94, 94, 93}, Audio2AC3: true},
 		{Name: "x_rep_ids", VideoTS: 90000, FrameDur: 3000, SegFrames: []int{60, 60, 60, 60}, AudioSegs: []int{94, 94, 94, 93}, VideoID: "V300:b", ExtraVideo: "V300_b"},
 		{Name: "x_two_video_grids", VideoTS: 90000, FrameDur: 3000, SegFrames: []int{60, 60, 60, 60}, ExtraVideo: "V8s", ExtraSegFrames: []int{240}, ExtraOwnAS: true, UseTime: true},
 	}
